@@ -29,7 +29,7 @@ def _common(L, i):
                                                z3.And(0 <= W[k], W[k] < n, B(k) <= P[W[k]], P[W[k]] < B(k + 1))), [out[k]])),
         ('clear_no_label', forall([k, j], z3.Implies(z3.And(rng(0, k, out.len), out[k] == 0, rng(0, j, n)),
                                                      z3.Or(P[j] < B(k), P[j] >= B(k + 1))),
-                                  [z3.MultiPattern(out[k], P[j])])),
+                                  [MP(out[k], P[j])])),
     ]
 
 
@@ -65,7 +65,7 @@ def _ensures(C, res):
                                         z3.Exists([j], z3.And(rng(0, j, n), B(k) <= P[j], P[j] < B(k + 1)))), [res[k]])))
     cl.append(('clear_bit_has_no_label_in_bin',
                forall([k, j], z3.Implies(z3.And(rng(0, k, res.len), res[k] == 0, rng(0, j, n)),
-                                         z3.Or(P[j] < B(k), P[j] >= B(k + 1))), [z3.MultiPattern(res[k], P[j])])))
+                                         z3.Or(P[j] < B(k), P[j] >= B(k + 1))), [MP(res[k], P[j])])))
     cl.append(('labels_between_start_and_end_are_covered',
                forall(j, z3.Implies(z3.And(rng(0, j, n), P[j] >= C.start, P[j] <= _end_eff(C)), P[j] < B(res.len)), [P[j]])))
     return cl
@@ -76,7 +76,7 @@ def _requires(C):
     i, j = z3.Int('i'), z3.Int('j')
     return [('nonempty', P.len >= 1),
             ('ascending', forall([i, j], z3.Implies(z3.And(0 <= i, i <= j, j < P.len), P[i] <= P[j]),
-                                 [z3.MultiPattern(P[i], P[j])]))]
+                                 [MP(P[i], P[j])]))]
 
 
 def _append_W(L, val):
